@@ -284,6 +284,9 @@ def add_noise(top, rng, kind):
                 d["parameters"]["_why"] = "prior"
     elif kind == "ignored":
         for d in [x for t in t2 for x in walk_defs(t)]:
+            if rng.random() < 0.3:
+                d["ignore"] = False  # an object switched back on - wherever it sits (list element, value of a key) - is in effect
+        for d in [x for t in t2 for x in walk_defs(t)]:
             if d["type"] == "JointDistributionModel" and rng.random() < 0.7:
                 d["distributions"].insert(int(rng.integers(len(d["distributions"]) + 1)),
                                           {"id": "ign%d" % int(rng.integers(1000)), "type": "Distribution", "distribution": "torch.distributions.Normal", "x": "no.such", "ignore": True})
@@ -530,6 +533,17 @@ def run_case(case):
         jt["distributions"].append({"id": "dslab1", "type": "Distribution", "distribution": "torch.distributions.Normal", "x": "hslab1", "parameters": {"loc": 1.0, "scale": 1.0}})
         jt["distributions"].append({"id": "bb1", "type": "BayesianBridge", "x": {"id": "xbb1", "type": "Parameter", "tensor": [0.3, -0.6]},
                                     "scale": {"id": "sbb1", "type": "Parameter", "tensor": [0.9]}, "local_scale": "hlocal1", "slab": "hslab1"})
+        # ... and hyper-parameters that reach a distribution through a derived parameter (transformed, a view, a concatenation) of a
+        # parameter which its own prior holds as well
+        top.insert(0, {"id": "hls1", "type": "Parameter", "tensor": [0.2]})
+        jt["distributions"].append({"id": "dhls1", "type": "Distribution", "distribution": "torch.distributions.Normal", "x": "hls1", "parameters": {"loc": 0.0, "scale": 2.0}})
+        jt["distributions"].append({"id": "dder1", "type": "Distribution", "distribution": "torch.distributions.Normal",
+                                    "x": {"id": "xder1", "type": "Parameter", "tensor": [0.4, -0.2]},
+                                    "parameters": {"loc": {"id": "hlocal1.first", "type": "ViewParameter", "parameter": "hlocal1", "indices": "0:1"},
+                                                   "scale": {"id": "hls1.exp", "type": "TransformedParameter", "transform": "torch.distributions.ExpTransform", "x": "hls1"}}})
+        jt["distributions"].append({"id": "dder2", "type": "Distribution", "distribution": "torch.distributions.Normal",
+                                    "x": {"id": "xder2", "type": "Parameter", "tensor": [0.1, 0.5, -0.3]},
+                                    "parameters": {"loc": {"id": "hcat1", "type": "CatParameter", "parameters": ["hslab1", "hlocal1"], "dim": -1}, "scale": 1.5}})
         effective = top
     elif fault == "shared-transform-argument":
         # the argument of a parametric transform is a reference to a parameter that something else (its prior) holds too
@@ -650,7 +664,8 @@ def run_case(case):
                             V.append(tt.viol("C13:reference-not-the-registry-instance:%s.%s" % (ddef["type"], slot), "%s `%s' refers to `%s' through `%s' but does not hold the registry object of that id (a copy or a snapshot of its value instead)" % (ddef["type"], ddef["id"], ref, slot), **detail))
                             break
         if fault == "shared-hyperparameter" and not V:
-            for pid_, newv in (("hslab1", [0.6]), ("hlocal1", [1.9, 0.4])):
+            _ = dic[jid]()  # every holder has computed from the old values
+            for pid_, newv in (("hslab1", [0.6]), ("hlocal1", [1.9, 0.4]), ("hls1", [-0.4])):
                 dic[pid_].tensor = torch.tensor(newv, dtype=dic[pid_].tensor.dtype)
             v1 = tt.as_np(dic[jid](), "C13:not-a-tensor").sum()
             rebuilt = copy.deepcopy(effective)
@@ -661,7 +676,7 @@ def run_case(case):
             v2 = tt.as_np(dic6[jid](), "C13:not-a-tensor").sum()
             C["sharing_updates"] += 1
             if abs(v1 - v2) > 1e-9 * max(1.0, abs(v2)):
-                V.append(tt.viol("C13:update-of-hyperparameter-not-shared", "after updating hslab1 / hlocal1 (held by their hyper-priors and by the bridge bb1) the joint is %.12g, a rebuilt specification gives %.12g" % (v1, v2), **detail))
+                V.append(tt.viol("C13:update-of-hyperparameter-not-shared", "after updating hslab1 / hlocal1 / hls1 (held by their hyper-priors, by the bridge bb1 and - through a view, a transform, a concatenation - by dder1 and dder2) the joint is %.12g, a rebuilt specification gives %.12g" % (v1, v2), **detail))
         if fault == "shared-transform-argument" and not V:
             neww = rng.dirichlet([2.0, 2.0]).round(4)
             dic["pw1"].tensor = torch.tensor(neww, dtype=dic["pw1"].tensor.dtype)
